@@ -80,7 +80,8 @@ func fill(r *core.Rand, x *xspec) {
 
 // genRound draws 1-8 connections of 1-5 exchanges. target: "" | "f12" (a transport-level CONNECT
 // rejection, the path of the repaired F12: a regression target) | "f40" (a CONNECT answered 101, the
-// recorded class) puts one such exchange into the round.
+// recorded class) | "f42" (an origin answering 101 without a protocol switch, the path of the repaired
+// F42: a regression target) puts one such exchange into the round.
 func genRound(r *core.Rand, defect string) *roundCase {
 	rc := &roundCase{Kind: "round", Handler: r.Chance(20)}
 	nc := r.Range(1, 8)
@@ -127,6 +128,17 @@ func genRound(r *core.Rand, defect string) *roundCase {
 			pos = r.Intn(pos + 1)
 			c.Exchanges = append(c.Exchanges[:pos], append([]xspec{x}, c.Exchanges[pos:]...)...)
 		}
+	case "f42":
+		c := &rc.Conns[r.Intn(len(rc.Conns))]
+		pos := len(c.Exchanges)
+		for j, e := range c.Exchanges {
+			if terminal(e.Kind) {
+				pos = j
+				break
+			}
+		}
+		pos = r.Intn(pos + 1)
+		c.Exchanges = append(c.Exchanges[:pos], append([]xspec{{Kind: "status", Status: 101}}, c.Exchanges[pos:]...)...)
 	case "f40":
 		c := &rc.Conns[r.Intn(len(rc.Conns))]
 		if r.Chance(35) {
@@ -142,7 +154,7 @@ func Run(ctx *core.Ctx) {
 	ctx.SetRule("rounds of 1-8 concurrent client connections of 1-5 exchanges each against a real proxy with a fresh Prometheus registry " +
 		"(basic auth, deny-domains, upstream proxy for some hosts, MITM for some hosts, traffic tracking on): GET/HEAD/POST/PUT/OPTIONS with bodies, " +
 		"origin statuses, 407/403/400 refusals, upstream refused / reset mid-head / reset mid-body / header timeout, CONNECT tunnels direct and through the " +
-		"upstream proxy (ok, dial failure, rejection incl. 101), requests whose CONNECT the upstream proxy rejects inside the proxy's transport (GET https:// and inside an intercepted session), MITM hand-off with requests inside, 101 upgrade tunnels, client aborts while uploading / " +
+		"upstream proxy (ok, dial failure, rejection incl. 101), requests whose CONNECT the upstream proxy rejects inside the proxy's transport (GET https:// and inside an intercepted session), MITM hand-off with requests inside, 101 upgrade tunnels, a 101 that is no protocol switch (answered 502), client aborts while uploading / " +
 		"downloading / before reading the response (RST and FIN), EOF and garbage before a request, keep-alive reuse; tunnel ends by close/FIN/RST; " +
 		"plus cases on the exported Listener/Dialer: 1-6 accepted and 0-4 dialled connections with byte transfers, each closed by 1-4 goroutines at once " +
 		"(some twice), refused dials, Accept on a closed listener; " +
@@ -157,7 +169,7 @@ func Run(ctx *core.Ctx) {
 	ctx.Assume("sync.Once.Do is modelled as an atomic check-and-run; the Go scheduler, TCP and the Prometheus client are not modelled")
 	ctx.Assume("real schedules are sampled: each round is one interleaving chosen by the scheduler; gauges are observed at gather points only (quiescent point = registry equal to the model's counters and connection gauges 0 on three consecutive polls, waited for at most 12 s)")
 	ctx.Assume("bytes on the wire are counted at the harness's end of each connection: equal to the observer once that end has read to the FIN, a lower bound for the observer's Tx (an upper bound for its Rx) when the connection ended in a reset (bytes the kernel had accepted may be lost); on connections without TLS above the tracker the observer is also compared exactly with the n the calls returned")
-	ctx.Assume("paths not reachable from outside and therefore covered by the theorems only: tunnel drain failure, 101 with a non-writable body, write failure of the MITM 200, the shutdown path")
+	ctx.Assume("paths not reachable from outside and therefore covered by the theorems only: tunnel drain failure, write failure of the MITM 200, the shutdown path")
 	pool := newWorldPool(ctx)
 	defer pool.closeAll()
 	for _, c := range core.LoadCorpus(ctx.Root, "C13") {
@@ -237,6 +249,8 @@ func Run(ctx *core.Ctx) {
 			defect = "f12"
 		case i%50 == 13:
 			defect = "f40"
+		case i%50 == 27:
+			defect = "f42"
 		}
 		rc := genRound(r, defect)
 		if i < 2 {
